@@ -2,7 +2,7 @@
 """W-construct for SSH: library objects and reference encodings (vmon/ref/ssh.py) from the same choices."""
 import datetime
 
-from vmon.gen.tls import Pair, pick_len, rbytes
+from vmon.gen.tls import Pair, guarded, pick_len, rbytes
 from vmon.ref import ssh as ref
 
 UTC = datetime.timezone.utc
@@ -299,7 +299,10 @@ def banner(rng):
         software_lib = version.SshSoftwareVersionIPSSH(number)
         software = 'IPSSH' + ('-' + number if number is not None else '')
     else:
-        software = rng.choice(['libssh_0.9.6', 'Cisco-1.25', 'x', 'ROSSSH', 'mod_sftp/0.9.9', 'WeOnlyDo-2.1.3'])
+        # also names that differ from a modelled vendor only in letter case or separator: they are other software
+        software = rng.choice(['libssh_0.9.6', 'Cisco-1.25', 'x', 'ROSSSH', 'mod_sftp/0.9.9', 'WeOnlyDo-2.1.3', 'Dropbear_2022.83',
+                               'openssh_9.6', 'OPENSSH_9.6', 'MONACA', 'CRYPTLIB', 'ipssh-6.6.0', 'OpenSSH-8.1', 'dropbear-2020.81',
+                               'OpenSSHx_8.1', 'OpenSS'])
         software_lib = version.SshSoftwareVersionUnparsed(software)
     comment = rng.choice([None, None, 'Ubuntu-4ubuntu0.3', 'comment with spaces', 'FreeBSD-20200214', '', 'two  blanks', ' leading blank',
                           'trailing blank ', 'tab\tinside', '  ', ''.join(chr(rng.randrange(0x20, 0x7f)) for _ in range(rng.randrange(1, 40)))])
@@ -307,12 +310,20 @@ def banner(rng):
     return Pair('banner', lib, ref.banner(major, minor, software, comment))
 
 
-def generate(rng, count):
+def certificate_valued(rng):
+    return certificate(rng, True)
+
+
+def messages_and_records(rng):
+    message_pairs = messages(rng)
+    return message_pairs + records(rng, message_pairs)
+
+
+def generate(rng, count, failures=False):
+    makers = [messages_and_records, banner, host_key_pair, host_key_pair, certificate, certificate, certificate_valued]
     produced = 0
     while produced < count:
-        message_pairs = messages(rng)
-        batch = message_pairs + records(rng, message_pairs) + [banner(rng), host_key_pair(rng), host_key_pair(rng),
-                                                               certificate(rng), certificate(rng), certificate(rng, True)]
-        for pair in batch:
-            yield pair
-            produced += 1
+        for maker in makers:
+            for pair in guarded(maker, rng, failures):
+                yield pair
+                produced += 1
